@@ -130,6 +130,11 @@ func TestSchedules(t *testing.T) {
 		close(outReady)
 		getOut := func() *verifexport.Future[int] { <-outReady; outMu.Lock(); defer outMu.Unlock(); return out }
 		threads := []string{"a1", "a2", "cf", "cg", "cg2", "af", "ag"}
+		if i%2 == 1 {
+			// the holder of the composed future completes it directly (cancel / timeout)
+			threads = append(threads, "co")
+			c.Go("co", func() { cmp("co", "o", getOut(), 9)() })
+		}
 		c.Go("a1", acc("a1", "o", getOut))
 		c.Go("a2", acc("a2", "o", getOut))
 		c.Go("cf", cmp("cf", "f", f, 1+rng.Intn(2)))
@@ -151,6 +156,59 @@ func TestSchedules(t *testing.T) {
 		} else {
 			tw.Emit(tracefmt.Rec{"ev": "end"})
 		}
+	}
+
+	// Composed futures completed directly by their holder, sequentially, in every order of
+	// the calls: p = ThenCompose(o, _ -> h), o = ThenCompose(f, _ -> g).
+	type seqCall struct {
+		name, op, fut string
+		v             int
+	}
+	seqCalls := []seqCall{
+		{"a1", "accept", "o", 0}, {"a2", "accept", "o", 0}, {"ap", "accept", "p", 0},
+		{"co", "complete", "o", 9}, {"cf", "complete", "f", 1}, {"cg", "complete", "g", 3},
+		{"ch", "complete", "h", 5},
+	}
+	var perms [][]int
+	var permute func(cur []int, used int)
+	permute = func(cur []int, used int) {
+		if len(cur) == len(seqCalls) {
+			perms = append(perms, append([]int(nil), cur...))
+			return
+		}
+		for k := range seqCalls {
+			if used&(1<<k) == 0 {
+				permute(append(cur, k), used|1<<k)
+			}
+		}
+	}
+	permute(nil, 0)
+	rng.Shuffle(len(perms), func(a, b int) { perms[a], perms[b] = perms[b], perms[a] })
+	if n := tracefmt.EnvInt("VERIF_SEQ", 400); len(perms) > n {
+		perms = perms[:n]
+	}
+	for i, perm := range perms {
+		tw.Emit(tracefmt.Rec{"ev": "reset", "futs": []string{"f", "g", "h", "o", "p"}, "n": i, "scenario": "direct-complete"})
+		tw.Emit(tracefmt.Rec{"ev": "compose", "out": "o", "f": "f", "g": "g"})
+		tw.Emit(tracefmt.Rec{"ev": "compose", "out": "p", "f": "o", "g": "h"})
+		fs := map[string]*verifexport.Future[int]{"f": verifexport.NewFuture[int](), "g": verifexport.NewFuture[int](), "h": verifexport.NewFuture[int]()}
+		fs["o"] = verifexport.ThenCompose(fs["f"], func(int) *verifexport.Future[int] { return fs["g"] })
+		fs["p"] = verifexport.ThenCompose(fs["o"], func(int) *verifexport.Future[int] { return fs["h"] })
+		for _, k := range perm {
+			sc := seqCalls[k]
+			if sc.op == "accept" {
+				tw.Emit(tracefmt.Rec{"ev": "call", "thread": sc.name, "op": "accept", "fut": sc.fut, "cb": sc.name})
+				fs[sc.fut].ThenAccept(func(v int) {
+					tw.Emit(tracefmt.Rec{"ev": "ran", "cb": sc.name, "fut": sc.fut, "v": v})
+				})
+			} else {
+				tw.Emit(tracefmt.Rec{"ev": "call", "thread": sc.name, "op": "complete", "fut": sc.fut, "v": sc.v})
+				fs[sc.fut].Complete(sc.v)
+			}
+			tw.Emit(tracefmt.Rec{"ev": "ret", "thread": sc.name})
+		}
+		tw.Emit(tracefmt.Rec{"ev": "end"})
+		st.Compose++
 	}
 
 	// A callback that panics (the panic is recovered by its caller) must not leave the future
